@@ -178,9 +178,31 @@ fn odd_frames(r: &mut Rng, n: usize) -> Vec<Vec<u8>> {
             4 => Link::Null([0x1e, 0, 0, 0]),
             _ => Link::Null(*r.pick(&[[0x02, 0, 0, 0], [0x1e, 0, 0x01, 0], [0x1c, 0, 0, 0], [0x1e, 0, 0, 1]])),
         };
+        if let (Ip::V6(h6), true) = (&ip, r.chance(1, 4)) {
+            // one IPv6 extension header (hop-by-hop, routing, destination options) in front of
+            // the TCP segment: whether an analyzer looks behind it or not, its filter has to
+            // judge the packet on the endpoints the analyzer would report
+            let kind = *r.pick(&[0u8, 43, 60]);
+            let mut l4 = if kind == 43 { vec![6, 0, 0, 0, 0, 0, 0, 0] } else { vec![6, 0, 1, 4, 0, 0, 0, 0] };
+            l4.extend(tcp.bytes());
+            let mut h = h6.clone();
+            h.next = kind;
+            let ipb = Ip::V6(h).bytes(&l4);
+            out.push(pkt::frame(link, &ipb, false));
+            continue;
+        }
         out.push(pkt::build(link, &ip, &tcp));
     }
     out
+}
+
+/// source / destination of a canonical result line
+fn endpoints_of_line(line: &str) -> Option<(IpAddr, IpAddr, u16, u16)> {
+    let ep = crate::canon::endpoints_of(line)?;
+    let (a, b) = ep.split_once('>')?;
+    let (sa, sp) = a.rsplit_once(':')?;
+    let (da, dp) = b.rsplit_once(':')?;
+    Some((sa.parse().ok()?, da.parse().ok()?, sp.parse().ok()?, dp.parse().ok()?))
 }
 
 fn filtered_runner(which: Which, cfg: &Cfg) -> Runner {
@@ -244,6 +266,15 @@ pub fn run(ctx: &mut Ctx) {
                         if started.elapsed().as_secs() >= 5 {
                             ctx.inconclusive("trace exceeded 5 s of wall time");
                             continue;
+                        }
+                        // "no result is ever emitted for endpoints the filter rejects", read off
+                        // the results themselves
+                        for line in a.iter().flatten() {
+                            if let Some((sa, da, sp, dp)) = endpoints_of_line(line) {
+                                ctx.judge(c14::ref_filter(&cfg, &sa, &da, sp, dp), &[], "a result is emitted for endpoints the installed filter rejects", || {
+                                    json!({"trace": t, "analyzer": format!("{which:?}"), "filter": cfg.describe(), "result": line})
+                                });
+                            }
                         }
                         let ok = e == a;
                         ctx.judge(ok, &[], "filtered analyzer reports differ from the unfiltered analyzer on the admitted sub-trace", || {
